@@ -423,6 +423,49 @@ def core_cont(crlf, li, gi, mid):
 '''
 
 
+def native_stateless():
+    """parse_script / parse_expression keep no state between calls (run natively: CrossHair neutralises functools caches, so a
+    memoised parser would look stateless under it)"""
+    import copy
+    from bare_script import parse_script, parse_expression
+
+    def poison(x):
+        if isinstance(x, dict):
+            for v in list(x.values()):
+                poison(v)
+            x['__poison__'] = 1
+        elif isinstance(x, list):
+            for v in x:
+                poison(v)
+            x.append('__poison__')
+    n = 0
+    for name, marked in CORPUS.items():
+        text = marked.replace('~', '')
+        for sep in ('\n', '\r\n'):
+            t = text.replace('\n', sep)
+            first = parse_script(t)
+            want = copy.deepcopy(first)
+            poison(first)
+            if parse_script(t) != want:
+                return {'state': 'violation', 'detail': {'clause': 'a second parse of the same text is affected by edits to the first result (the parser keeps state)',
+                                                         'program': name}, 'replay': {'module': 'vf.props.c10', 'fn': 'replay_stateless', 'kwargs': {}}}
+            n += 1
+    for etext in ('aa + 1', 'ff(1, bb) * 2', "'s' + xx", '(aa)', '-aa', 'if(aa, 1, 2)'):
+        e1 = parse_expression(etext)
+        want = copy.deepcopy(e1)
+        poison(e1)
+        if parse_expression(etext) != want:
+            return {'state': 'violation', 'detail': {'clause': 'parse_expression keeps state between calls', 'expr': etext},
+                    'replay': {'module': 'vf.props.c10', 'fn': 'replay_stateless', 'kwargs': {}}}
+        n += 1
+    return {'state': 'ok', 'checked': n}
+
+
+def replay_stateless():
+    r = native_stateless()
+    return r['state'] == 'ok', r.get('detail', {})
+
+
 def plan(tier, seed, workdir):
     import bare_script.parser as ps
     p = Plan('C10', 'exploration')
@@ -434,6 +477,8 @@ def plan(tier, seed, workdir):
                'timeout': 300, 'est': 20}, family='E2 whitespace closure', pattern='_R_SCRIPT_' + name)
     for fn in ('lemma_comment', 'lemma_line_split', 'lemma_continuation', 'lemma_arg_split'):
         p.add({'kind': 'lemma', 'id': fn, 'module': 'vf.props.c10', 'fn': fn, 'kwargs': {}, 'timeout': 300, 'est': 20}, family='E2 ' + fn)
+    p.add({'kind': 'native', 'id': 'stateless', 'module': 'vf.props.c10', 'fn': 'native_stateless', 'kwargs': {}, 'timeout': 120, 'est': 5},
+          family='statelessness of parse_script / parse_expression (native: CrossHair neutralises functools caches)')
     timeout = 240 if tier == 'quick' else 1200
     for pname, marked in CORPUS.items():
         n = len(marked.rstrip('\n').split('\n'))
